@@ -6,6 +6,8 @@
         (one entry per `quinn::SendStream::poll_write` call);
     (b) the receive-side ownership machine `RecvStream::{poll_data, stop_sending, recv_id}`
         (`stream: Option<quinn::RecvStream>` is `None` while the boxed read future owns the stream);
+    (b') `StopSpec`: what `stop_sending` owes the peer, written from the caller's side (a
+        specification, not code: reading R-17 of DESIGN.md section 9);
     (c) `convert_connection_error`, `convert_read_error_to_stream_error`,
         `convert_write_error_to_stream_error` as finite tables over Quinn's error enums;
     (d) the unframed write path `SendStreamUnframed::poll_send` against one `poll_write` answer, and
